@@ -145,4 +145,37 @@ theorem single_consumer_delivery {cap : Nat} {to ig : Bool} {src : List Item} {r
   rw [heq]
   exact hs2.eq_of_length (by simpa using hall)
 
+variable {E : Type}
+
+/-- `zs` is what the next stage's iterator has dequeued from a stage's `result_q` in some reachable
+configuration of the queue LTS — any capacity, any timeout setting, any consumer loop (`get` or
+`get_batch` of any batch size), any schedule — with exactly one producer enqueueing the stream `ys`
+(the queue transports the positions `0..len-1`), once everything was put and everything put was
+delivered. -/
+def QueueDelivers (ys zs : List E) : Prop :=
+  ∃ (cap : Nat) (to ig : Bool) (r : Nat) (cons : Prog) (c : Cfg) (t : Thread),
+    cons.kind ≠ .producer ∧
+    Reachable (init cap 1 to ig [.producer ((List.range ys.length).map .val) r, cons]) c ∧
+    c.ths[1]? = some t ∧ c.sh.produced.length = ys.length ∧ t.received.length = c.sh.produced.length ∧
+    zs = (t.received.map (·.2)).filterMap (ys[·]?)
+
+theorem vals_range (n : Nat) : vals ((List.range n).map .val) = List.range n := by
+  unfold vals
+  rw [List.filterMap_map]
+  show List.filterMap some (List.range n) = List.range n
+  exact List.filterMap_some
+
+theorem filterMap_range'_getElem? (pre ys : List E) :
+    (List.range' pre.length ys.length).filterMap ((pre ++ ys)[·]?) = ys := by
+  induction ys generalizing pre with
+  | nil => rfl
+  | cons y ys ih =>
+    simp only [List.length_cons, List.range'_succ, List.filterMap_cons]
+    have h1 : (pre ++ y :: ys)[pre.length]? = some y := by simp
+    rw [h1]
+    have := ih (pre ++ [y])
+    simp only [List.length_append, List.length_cons, List.length_nil, Nat.zero_add,
+      List.append_assoc, List.cons_append, List.nil_append] at this
+    rw [this]
+
 end MlModel.Queue
